@@ -1133,7 +1133,7 @@ class SSHProcess(SSHStreamSession, Generic[AnyStr]):
 
         self._recv_buf[datatype].clear()
 
-        if self._eof_received:
+        if self._eof_received and self._recv_eof[datatype]:
             writer.write_eof()
 
         self._maybe_resume_reading()
